@@ -152,7 +152,8 @@ func Parse(text string) (p Pattern, ok bool) {
 		return p, false
 	}
 	for _, v := range p.Vars() {
-		if _, err := compileFull(v.Regex()); err != nil {
+		// a variable regex must compile and must not contain a capturing group (C13: such definitions are invalid)
+		if re, err := compileFull(v.Regex()); err != nil || re.NumSubexp() != 0 {
 			return p, false
 		}
 	}
